@@ -2434,6 +2434,28 @@ func ruleClassifierCoversKinds(c *Ctx, rule string) {
 				if s, ok := constString(src); ok && s != "" {
 					got[s] |= kf.At(ret)
 				}
+				// the name looked up in a package-level table from kinds to names
+				var lk *ssa.Lookup
+				switch x := src.(type) {
+				case *ssa.Lookup:
+					lk = x
+				case *ssa.Extract:
+					lk, _ = x.Tuple.(*ssa.Lookup)
+				}
+				if lk == nil {
+					continue
+				}
+				kc, isKind := lk.Index.(*ssa.Call)
+				if !isKind || core.CalleeKey(&kc.Call) != "reflect.Value.Kind" || !subj[kc.Call.Args[0]] {
+					continue
+				}
+				if g := loadedFromGlobal(lk.X); g != nil {
+					for kind, name := range c.globalKindTable(g) {
+						if kind >= 0 && kind < nKinds {
+							got[name] |= Kinds(kind) & kf.At(ret)
+						}
+					}
+				}
 			}
 		})
 	}
@@ -2505,4 +2527,37 @@ func ruleStructFieldsAgree(c *Ctx, rule string) {
 	}
 	c.R.Check(eqSome == hSome && eqAll == hAll, rule, "exported-fields-only", c.P.Pos(h.Pos()), "equality and the hasher agree on whether unexported struct fields count",
 		fmt.Sprintf("equality passes over unexported struct fields: %v; the hasher does: %v: two structs that differ only in a field one of the two functions ignores are equal but hash differently (uniqueItems never compares them), or hash alike and compare unequal", eqAll, hAll))
+}
+
+// globalKindTable: the constant entries (reflect.Kind -> string) with which package initialisation fills the map
+// stored in global g.
+func (c *Ctx) globalKindTable(g *ssa.Global) map[int]string {
+	out := map[int]string{}
+	initFn := c.P.SSAPkg.Func("init")
+	if initFn == nil {
+		return out
+	}
+	var table ssa.Value
+	core.EachInstr(initFn, func(i ssa.Instruction) {
+		if st, ok := i.(*ssa.Store); ok && st.Addr == ssa.Value(g) {
+			table = st.Val
+		}
+	})
+	if table == nil {
+		return out
+	}
+	core.EachInstr(initFn, func(i ssa.Instruction) {
+		mu, ok := i.(*ssa.MapUpdate)
+		if !ok || mu.Map != table {
+			return
+		}
+		k, ok1 := mu.Key.(*ssa.Const)
+		v, ok2 := constString(mu.Value)
+		if ok1 && ok2 && k.Value != nil {
+			if kv, ok := constInt(k); ok {
+				out[int(kv)] = v
+			}
+		}
+	})
+	return out
 }
